@@ -332,7 +332,29 @@ def r01_5(run, model, only_files=None):
     run.floor("positive control: loops with a skip before the push elsewhere in the compiler", ctrl, 8)
 
 
+def r01_6(run, model):
+    run.rule("R01.6", "a vector bound to a name never changes: vec_push returns the extended vector (`(Vec[T], T) -> Vec[T]`, the only mutable "
+                      "thing in goml is Ref), so its lowering must not hand the argument's backing array to Go's append, which writes into "
+                      "spare capacity shared by every slice header over that array")
+    GO = "crates/compiler/src/go/compile.rs"
+    f = model.fn("compile_cexpr", GO)
+    arm = None
+    for m in S.find(f.body, "Match"):
+        for a in m["arms"]:
+            if S.norm_ws(run.facts.text(GO, a["pat"]["sp"])) == '"vec_push"':
+                arm = a
+    if arm is None:
+        raise AnalysisIncomplete("compile_cexpr: the arm lowering vec_push was not found")
+    body = S.norm_ws(run.facts.text(GO, arm["body"]["sp"]))
+    bare = '"append"' in body and re.search(r"args:compiled_args\b", body) is not None
+    run.ob("R01.6", "vec_push|does not share the argument's backing array", not bare, site(GO, arm["sp"]),
+           "vec_push(v, x) is emitted as append(v, x) on the argument slice itself" if bare else "the argument is copied or capacity-limited before append",
+           witness="let v3 = vec_push(vec_push(vec_push(vec_new(), 1), 2), 3); let a = vec_push(v3, 10); let b = vec_push(v3, 20); "
+                   "vec_get(a, 3) prints 20: both appends write slot 3 of v3's array (len 3, cap 4)")
+
+
 def run(run, model):
+    run.try_rule(r01_6, model)
     trs = P.discover(model, include_pprint=True)
     run.anchor("IR traversals discovered", f"{len(trs)} (function, enum) matches with >=5 explicit variants")
     run.try_rule(r01_2, model, trs)
